@@ -49,6 +49,9 @@ VARIABLES
   rerr,      \* read error seen by the client ("" | "eof")
   \* ---- control ----
   phase, round, p, ndel, flushed, stale,
+  resid,     \* ghost: what reset() found (state, frames pending, src dirty, handshakeBuffer dirty);
+             \* keeps rounds that start from different leftovers apart in the state graph, so
+             \* that each is generated as a scenario although the repaired reset() makes them equal
   \* ---- monitor ----
   mstage, mexp, mwhy, mfeat, mnsent, mndel, mkeys, bad,
   \* ---- generation ----
@@ -56,7 +59,7 @@ VARIABLES
 
 streamvars == <<st, pend, hsn, fstart, srcDirty>>
 wirevars   == <<wsent, wclosed, crd, rdone, rerr>>
-ctlvars    == <<phase, round, p, ndel, flushed, stale>>
+ctlvars    == <<phase, round, p, ndel, flushed, stale, resid>>
 monvars    == <<mstage, mexp, mwhy, mfeat, mnsent, mndel, mkeys, bad>>
 vars       == <<streamvars, wirevars, ctlvars, monvars, hist>>
 
@@ -253,6 +256,7 @@ Init ==
   /\ st = "state_handshake" /\ pend = 0 /\ hsn = 0 /\ fstart = 0 /\ srcDirty = FALSE
   /\ wsent = 0 /\ wclosed = FALSE /\ crd = 0 /\ rdone = FALSE /\ rerr = ""
   /\ phase = "idle" /\ round = 0 /\ p = NoP /\ ndel = 0 /\ flushed = FALSE /\ stale = FALSE
+  /\ resid = <<"state_handshake", FALSE, FALSE, FALSE>>
   /\ Mon!MonInit
   /\ hist = <<>>
 
@@ -260,6 +264,7 @@ Init ==
 Begin(q) ==
   /\ phase = "idle" /\ round < MaxRounds
   /\ round' = round + 1 /\ p' = q
+  /\ resid' = <<st, pend > 0, srcDirty, hsn > 0>>
   \* reset()
   /\ st' = "state_handshake" /\ hsn' = 0 /\ fstart' = 0 /\ srcDirty' = FALSE
   /\ pend' = IF BUG_PendingSurvive THEN pend ELSE 0
@@ -276,14 +281,14 @@ Request ==
             THEN Ev("Req", p, round)
             ELSE [Ev("Req", p, round) EXCEPT !.got = 1, !.method = 1, !.host = 1, !.upg = 1, !.conn = 1,
                     !.ver = 1, !.key16 = 1, !.fresh = 1, !.keyid = round, !.xhdr = 1, !.wf = 1])
-  /\ UNCHANGED <<streamvars, wirevars, round, p, ndel, flushed, stale>>
+  /\ UNCHANGED <<streamvars, wirevars, round, p, ndel, flushed, stale, resid>>
 
 \* the server's script for this round
 Script ==
   /\ phase = "req" /\ phase' = "responding"
   /\ Emit([Ev("Resp", p, round) EXCEPT !.status = p.status, !.rupg = p.upg, !.racc = p.acc,
              !.complete = IF Complete(p) THEN 1 ELSE 0, !.feat = Feat(p), !.nsent = NSent(p)])
-  /\ UNCHANGED <<streamvars, wirevars, round, p, ndel, flushed, stale>>
+  /\ UNCHANGED <<streamvars, wirevars, round, p, ndel, flushed, stale, resid>>
 
 \* the server writes the next segment once the client has taken the previous one
 ServerWrite ==
@@ -321,12 +326,12 @@ Upgrade ==
          e      == IF ok THEN "nil" ELSE IF parsed THEN "cannotupgrade" ELSE "other"
      IN
      /\ fstart' = IF ~parsed THEN 0 ELSE IF hsn > resLen THEN resLen + 1 ELSE hsn + 1
-     /\ srcDirty' = (parsed /\ hsn > resLen)
+     /\ srcDirty' = (parsed /\ hsn > resLen)      \* leftover written to src (consumed later if accepted)
      /\ hsn' = IF parsed THEN 0 ELSE hsn
      /\ st' = IF ok THEN "state_active" ELSE "state_terminated"
      /\ phase' = IF ok THEN "reading" ELSE "ending"
      /\ Emit([Ev("Result", p, round) EXCEPT !.err = e, !.state = st', !.cbs = 1, !.pending = pend])
-  /\ UNCHANGED <<pend, wirevars, round, p, ndel, flushed, stale>>
+  /\ UNCHANGED <<pend, wirevars, round, p, ndel, flushed, stale, resid>>
 
 \* frames the decoder yields when it starts at stream position fstart:
 \* from a frame boundary on, the remaining frames; anywhere else, garbage
@@ -340,7 +345,7 @@ Delivered ==
 FirstFlush ==
   /\ phase = "reading" /\ ~flushed
   /\ flushed' = TRUE /\ stale' = (pend > 0) /\ pend' = 0
-  /\ UNCHANGED <<st, hsn, fstart, srcDirty, wirevars, phase, round, p, ndel, monvars, hist>>
+  /\ UNCHANGED <<st, hsn, fstart, srcDirty, wirevars, phase, round, p, ndel, resid, monvars, hist>>
 
 \* NextFrame / AsyncNextFrame returns a frame
 Deliver ==
@@ -351,7 +356,7 @@ Deliver ==
      IN /\ pend' = IF ctl THEN pend + 1 ELSE pend      \* pong / close reply prepared, not flushed
         /\ st' = IF ctl /\ p.tail = "close" THEN "state_closed_by_peer" ELSE st
         /\ Emit([Ev("Msg", p, round) EXCEPT !.n = ndel + 1, !.match = m])
-  /\ UNCHANGED <<hsn, fstart, srcDirty, wirevars, phase, round, p, flushed, stale>>
+  /\ UNCHANGED <<hsn, fstart, srcDirty, wirevars, phase, round, p, flushed, stale, resid>>
 
 \* reading ends (EOF after the server's shutdown, or the script stops after the
 \* control frame), the driver closes the connection (CloseNextLayer)
@@ -367,7 +372,12 @@ EndRound ==
   /\ wsent' = 0 /\ wclosed' = FALSE /\ crd' = 0 /\ rdone' = FALSE /\ rerr' = ""
   /\ ndel' = 0 /\ flushed' = FALSE /\ stale' = FALSE
   /\ fstart' = 0
-  /\ UNCHANGED <<pend, hsn, srcDirty, round>>
+  /\ hsn' = IF hsn > 0 THEN 1 ELSE 0      \* only "dirty or not" matters to the next reset()
+  \* src still holds bytes: a leftover nobody read (rejected round), or the last
+  \* frame returned (the decoder consumes a frame lazily, on the next Decode)
+  /\ srcDirty' = \/ phase = "ending" /\ srcDirty
+                 \/ phase = "reading" /\ p.tail # "none" /\ ndel = NFrames(p)
+  /\ UNCHANGED <<pend, round, resid>>
 
 Step ==
   \/ \E q \in (IF round = 0 THEN Prof1 ELSE Prof2) : Begin(q)
